@@ -53,17 +53,47 @@ impl ConvertOpt for Option<R> {
 //@| ensures match *self { Interval::TwoSided(_, h) => r == h, Interval::LowerOneSided(h) => r == h, Interval::UpperOneSided(_) => true },
 //@endimpl
 
-// statrs entry points: ASSUMED contracts (trusted; see DESIGN 9.3).  t_value panics iff dof is not > 0.
-#[verifier::external_body]
-pub fn z_value(confidence: Confidence) -> (z: R)
-    requires conf_valid(confidence),
-    ensures z.v() == normal_quantile(conf_quantile(confidence)),
-{ unimplemented!() }
-#[verifier::external_body]
-pub fn t_value(confidence: Confidence, degrees_of_freedom: R) -> (t: R)
-    requires conf_valid(confidence), degrees_of_freedom.v() > 0real,
-    ensures t.v() == t_quantile(conf_quantile(confidence), degrees_of_freedom.v()),
-{ unimplemented!() }
+// statrs, the ASSUMED layer (trusted; DESIGN 9.3): constructors reject non-positive / NaN parameters, inverse_cdf is the
+// quantile function of the distribution.  z_value / t_value themselves are extracted from src/stats.rs and verified against it.
+pub struct Normal { mean: R, std_dev: R }
+pub struct StudentsT { location: R, scale: R, freedom: R }
+#[derive(Debug)]
+pub enum NormalError { MeanInvalid, StandardDeviationInvalid }
+#[derive(Debug)]
+pub enum StudentsTError { LocationInvalid, ScaleInvalid, FreedomInvalid }
+impl Normal {
+    pub closed spec fn standard(self) -> bool { self.mean.v() == 0real && self.std_dev.v() == 1real }
+    #[verifier::external_body]
+    pub fn new(mean: R, std_dev: R) -> (r: Result<Normal, NormalError>)
+        ensures std_dev.v() > 0real <==> r is Ok, r is Ok ==> (r->Ok_0.standard() <==> (mean.v() == 0real && std_dev.v() == 1real)),
+    { unimplemented!() }
+    // ContinuousCDF::inverse_cdf; statrs asserts 0 <= p <= 1
+    #[verifier::external_body]
+    pub fn inverse_cdf(&self, p: R) -> (r: R)
+        requires 0real <= p.v() <= 1real,
+        ensures self.standard() ==> r.v() == normal_quantile(p.v()),
+    { unimplemented!() }
+}
+impl StudentsT {
+    pub closed spec fn standard(self) -> bool { self.location.v() == 0real && self.scale.v() == 1real }
+    pub closed spec fn dof(self) -> real { self.freedom.v() }
+    #[verifier::external_body]
+    pub fn new(location: R, scale: R, freedom: R) -> (r: Result<StudentsT, StudentsTError>)
+        ensures (scale.v() > 0real && freedom.v() > 0real) <==> r is Ok,
+                r is Ok ==> r->Ok_0.dof() == freedom.v() && (r->Ok_0.standard() <==> (location.v() == 0real && scale.v() == 1real)),
+    { unimplemented!() }
+    #[verifier::external_body]
+    pub fn inverse_cdf(&self, p: R) -> (r: R)
+        requires 0real <= p.v() <= 1real,
+        ensures self.standard() ==> r.v() == t_quantile(p.v(), self.dof()),
+    { unimplemented!() }
+}
+//@freefn src/stats.rs z_value ret z vis pub
+//@| requires conf_valid(confidence),
+//@| ensures z.v() == normal_quantile(conf_quantile(confidence)),
+//@freefn src/stats.rs t_value ret t vis pub
+//@| requires conf_valid(confidence), degrees_of_freedom.v() > 0real,
+//@| ensures t.v() == t_quantile(conf_quantile(confidence), degrees_of_freedom.v()),
 //@const src/stats.rs POPULATION_LIMIT | ensures r.v() == 100000real,
 //@freefn src/stats.rs interval_bounds ret r vis pub
 //@| requires conf_valid(confidence), degrees_of_freedom.v() > 0real,
